@@ -20,28 +20,49 @@ def _validate_graph_isolation(project: WBS):
 
 
 def _check_loops(project: WBS):
+    """
+    Checks there is no dependency loop, including loops closed through the hierarchy: task start waits for
+    predecessor ends and for parent start, task end waits for task start and for children ends
+    """
     validated = set()
     for t in project.tasks:
-        _check_loops_from_task(t, set(), validated)
+        _check_loops_from_task(t, validated)
 
 
-def _check_loops_from_task(task: Task, visited_tasks: Set[int], validated: Set[int]):
-    if task.id in validated:
+def _check_loops_from_task(task: Task, validated: Set[tuple]):
+    def waits_for(node: tuple) -> List[tuple]:
+        _task, is_end = node
+        if is_end:
+            return [(_task, False)] + [(ch, True) for ch in _task.children]
+        res = [(pr, True) for pr in _task.predecessors]
+        if _task.parent is not None:
+            res.append((_task.parent, False))
+        return res
+
+    def key(node: tuple) -> tuple:
+        return id(node[0]), node[1]
+
+    root = (task, True)
+    if key(root) in validated:
         return
 
-    if task.id in visited_tasks:
-        raise RuntimeError(
-            "Found circle",
-            [str(t) + "-->" for t in visited_tasks] + [str(task.id) + ":" + task.name]
-        )
-
-    visited_tasks.add(task.id)
-
-    for s in task.predecessors:
-        _check_loops_from_task(s, visited_tasks, validated)
-
-    visited_tasks.remove(task.id)
-    validated.add(task.id)
+    visited = {key(root)}
+    stack = [(root, iter(waits_for(root)))]
+    while len(stack) > 0:
+        node, next_nodes = stack[-1]
+        next_node = next(next_nodes, None)
+        if next_node is None:
+            stack.pop()
+            visited.remove(key(node))
+            validated.add(key(node))
+        elif key(next_node) in visited:
+            raise RuntimeError(
+                "Found circle",
+                [f"{n[0].id}:{n[0].name}" for n, _ in stack] + [f"{next_node[0].id}:{next_node[0].name}"]
+            )
+        elif key(next_node) not in validated:
+            visited.add(key(next_node))
+            stack.append((next_node, iter(waits_for(next_node))))
 
 
 @dataclass(frozen=True)
